@@ -251,7 +251,8 @@ func run(c Case) (v vkit.Verdict) {
 				rs.Rings = nil
 			}
 		}
-		g := rs.Geom()
+		// the receiver's point lists are windows of one array too, stored out of order and with gaps (vkit.SharedGeom)
+		g, recvSame := vkit.SharedGeom(rs)
 		wantOutside := false
 		verts := c.Recv.Flatten()
 		for _, q := range verts {
@@ -262,6 +263,9 @@ func run(c Case) (v vkit.Verdict) {
 		got := g.(geom.Withiner).Within(P)
 		if m := unchanged(); m != "" {
 			return v.Fail("%s.Within changed the polygon it was given (rings are sub-slices of one array): %s", c.Recv.T, m)
+		}
+		if m := recvSame(); m != "" {
+			return v.Fail("%s.Within changed its receiver (members are sub-slices of one array): %s", c.Recv.T, m)
 		}
 		v.NonTrivial = len(verts) >= 2
 		v.Class("recv_" + c.Recv.T)
